@@ -524,6 +524,14 @@ def setattr_(it, obj, name, v, node=None):
         if h is not None:
             return h(it, name, v, node)
         raise OutOfSubset(f"attribute store on {type(obj).__name__}", node)
+    from .core import Closure
+    if isinstance(obj, Closure) and name in ("__name__", "__qualname__", "__doc__"):
+        # naming a function object created by the code under execution: metadata only
+        try:
+            setattr(obj, name, v)
+        except Exception:
+            pass
+        return
     raise OutOfSubset(f"attribute store on native {type(obj).__name__} (shared mutable state)", node)
 
 
